@@ -34,7 +34,7 @@ claim("C01",
       "shifts, 16x16 (+55x7, 7x55 in thorough) bits for *, 8x8 for // rem mod div, |x|<64 for gcd.",
       K, "DESIGN.md §4 C01")
 claim("C02",
-      "Bounded model checking over every finite double of classify_float, + (and * / in "
+      "Bounded model checking over every finite double of classify_float, + (and * in "
       "thorough), the zero-divisor / sqrt / atan2 / 0**negative guards, unary_float_fn_template "
       "with libm replaced by an arbitrary double, and floor/ceiling/truncate/round against the "
       "defining inequalities; plus a MIR check that each float kernel calls the IEEE/libm "
